@@ -75,7 +75,14 @@ static sexp verif_ctl(sexp ctx, sexp self, sexp_sint_t n, sexp op, sexp arg) {
     return sexp_make_fixnum(st.live_bytes);
   }
   if (!strcmp(s, "set-budget")) {
-    if (sexp_fixnump(arg)) { vh_budget = sexp_unbox_fixnum(arg); vh_instrs = 0; }
+    if (sexp_fixnump(arg)) {
+      vh_budget = sexp_unbox_fixnum(arg); vh_instrs = 0;
+      if (vh_time_budget_ns) {
+        struct timespec ts;
+        clock_gettime(CLOCK_MONOTONIC, &ts);
+        vh_time_deadline_ns = (long long)ts.tv_sec * 1000000000LL + ts.tv_nsec + vh_time_budget_ns;
+      }
+    }
     return SEXP_TRUE;
   }
   if (!strcmp(s, "instrs")) return sexp_make_fixnum(vh_instrs);
@@ -189,6 +196,7 @@ int main(int argc, char **argv) {
   if (getenv("VERIF_BUDGET")) vh_budget = atol(getenv("VERIF_BUDGET"));
   if (!vh_parse_gc(getenv("VERIF_GC"))) die("bad VERIF_GC", NULL, NULL);
   if (getenv("VERIF_VCLOCK")) ts_vclock_on = atoi(getenv("VERIF_VCLOCK"));
+  if (getenv("VERIF_TIME_BUDGET_MS")) vh_time_budget_ns = atoll(getenv("VERIF_TIME_BUDGET_MS")) * 1000000LL;
   vh_install_gc_hooks();
   sexp_verif.on_instr = ts_on_instr;
 
